@@ -7,4 +7,5 @@ CONSTANTS
   MaxPos = 1000
   MutInCursor = TRUE
   Depth = 30
+  CoverOneIn = 1
 CHECK_DEADLOCK FALSE
